@@ -60,6 +60,8 @@ type simServer struct {
 	NoFlagsAPI bool
 	// Modes: behaviours cycled over the connection attempts this host receives (empty = healthy)
 	Modes []string
+	// DelayMs: every answer takes this long (a slow but healthy server: what it answers is unchanged)
+	DelayMs int
 }
 
 type connMode struct{ mode string }
@@ -164,12 +166,17 @@ func runPint(t *testing.T, env simEnv, record bool) pintRun {
 			be.Metadata["errors_total"] = "counter"
 			be.Metadata["up"] = "gauge"
 			srv := simprom.NewServer(i, sv.Host, s, be)
-			if sv.NoFlagsAPI {
+			if sv.NoFlagsAPI || sv.DelayMs > 0 {
+				noFlags, delay := sv.NoFlagsAPI, int64(sv.DelayMs)*int64(time.Millisecond)
 				srv.FaultFn = func(req *simprom.Request) simprom.Fault {
-					if req.Endpoint == "/api/v1/status/flags" {
-						return simprom.Fault{Mode: simprom.ModeNotFound}
+					f := simprom.Fault{Mode: simprom.ModeOK}
+					if delay > 0 {
+						f.DelayNs = delay + int64(req.ID) // +id: no two timers tie
 					}
-					return simprom.Fault{Mode: simprom.ModeOK}
+					if noFlags && req.Endpoint == "/api/v1/status/flags" {
+						f.Mode = simprom.ModeNotFound
+					}
+					return f
 				}
 			}
 			if len(sv.Modes) > 0 {
